@@ -66,6 +66,7 @@ ObsOK(idx, m, q, o) ==
     [] o.kind = "highlight" -> LET F == HighlightFacts(o) IN
          F.fragments_are_substrings /\ F.html_text_is_escaped /\ F.marks_inside_fragments /\ F.marked_spans_are_query_terms
          /\ F.marks_are_unions_of_matched_tokens
+    [] o.kind = "flag" -> o.value
     [] o.kind = "error" -> FALSE
 
 Expected(idx, m, q, o) ==
